@@ -307,19 +307,19 @@ type fakeAttempt struct {
 	elapsed time.Duration
 }
 
-func (f *fakeAttempt) Context() context.Context         { return context.Background() }
-func (f *fakeAttempt) Attempts() int                    { return f.retries + 1 }
-func (f *fakeAttempt) Executions() int                  { return f.retries + 1 }
-func (f *fakeAttempt) Retries() int                     { return f.retries }
-func (f *fakeAttempt) Hedges() int                      { return 0 }
-func (f *fakeAttempt) StartTime() time.Time             { return time.Time{} }
-func (f *fakeAttempt) ElapsedTime() time.Duration       { return f.elapsed }
-func (f *fakeAttempt) LastResult() int                  { return 0 }
-func (f *fakeAttempt) LastError() error                 { return errX }
-func (f *fakeAttempt) IsFirstAttempt() bool             { return f.retries == 0 }
-func (f *fakeAttempt) IsRetry() bool                    { return f.retries > 0 }
-func (f *fakeAttempt) IsHedge() bool                    { return false }
-func (f *fakeAttempt) AttemptStartTime() time.Time      { return time.Time{} }
+func (f *fakeAttempt) Context() context.Context          { return context.Background() }
+func (f *fakeAttempt) Attempts() int                     { return f.retries + 1 }
+func (f *fakeAttempt) Executions() int                   { return f.retries + 1 }
+func (f *fakeAttempt) Retries() int                      { return f.retries }
+func (f *fakeAttempt) Hedges() int                       { return 0 }
+func (f *fakeAttempt) StartTime() time.Time              { return time.Time{} }
+func (f *fakeAttempt) ElapsedTime() time.Duration        { return f.elapsed }
+func (f *fakeAttempt) LastResult() int                   { return 0 }
+func (f *fakeAttempt) LastError() error                  { return errX }
+func (f *fakeAttempt) IsFirstAttempt() bool              { return f.retries == 0 }
+func (f *fakeAttempt) IsRetry() bool                     { return f.retries > 0 }
+func (f *fakeAttempt) IsHedge() bool                     { return false }
+func (f *fakeAttempt) AttemptStartTime() time.Time       { return time.Time{} }
 func (f *fakeAttempt) ElapsedAttemptTime() time.Duration { return 0 }
 
 func probeProperty(test string, st *harness.Stats) func(*rapid.T) {
